@@ -982,6 +982,11 @@ func (g *gram) callFn(fr *gframe, c *gconf, site *ssa.Call, callee *ssa.Function
 	}
 	g.checkTermKind(c, args, pos, fn)
 	relevant := returnsBytes(callee)
+	if smallIntFn(callee) {
+		// a small length/count getter written in some other shape: followed, so that len comparisons on its result
+		// still refine the length class of the slice behind it
+		relevant = true
+	}
 	for _, a := range args {
 		if interesting(a, c.heap, 0) {
 			relevant = true
@@ -1464,4 +1469,30 @@ func (g *gram) checkTermKind(c *gconf, args []gval, pos, fn string) {
 			g.fail(pos, fn, fmt.Sprintf("the language-map term %q is written with a plain JSON string as its value (the Map form must carry an object keyed by language)", name), c)
 		}
 	}
+}
+
+// smallIntFn: one integer result, at most six blocks, no calls other than builtins: cheap to follow.
+func smallIntFn(f *ssa.Function) bool {
+	if f == nil || f.Blocks == nil || len(f.Blocks) > 6 || f.Signature.Results().Len() != 1 || len(f.Params) == 0 {
+		return false
+	}
+	b, ok := types.Unalias(f.Signature.Results().At(0).Type()).Underlying().(*types.Basic)
+	if !ok || b.Info()&types.IsInteger == 0 {
+		return false
+	}
+	usesLen := false
+	for _, blk := range f.Blocks {
+		for _, in := range blk.Instrs {
+			if call, isCall := in.(ssa.CallInstruction); isCall {
+				bi, isBuiltin := call.Common().Value.(*ssa.Builtin)
+				if !isBuiltin {
+					return false
+				}
+				if bi.Name() == "len" {
+					usesLen = true
+				}
+			}
+		}
+	}
+	return usesLen
 }
